@@ -80,6 +80,9 @@ func walletAuthoring(r *evid.Run, dir string, cs int64) {
 		if sweepLike {
 			scp = nil
 			rate = btcutil.Amount([]int{20000, 50000, 100000}[rg.Intn(3)])
+			if rg.Intn(2) == 0 {
+				rate = btcutil.Amount(f.SmallRate * 1000) // the rate the aimed small coins were made for
+			}
 		}
 		var elig []*wh.Coin
 		for _, c := range f.SortedCoins() {
